@@ -1,3 +1,4 @@
+#include <limits>
 // C07 — backend vector and matrix-vector primitives equal their algebraic definitions.
 // Decided clauses: an output whose scaling coefficient is zero may hold anything (NaN / Inf / recycled heap garbage)
 // without influencing the result; the parallel forms (static chunks, per-thread partial sums) give the value of the
@@ -50,6 +51,13 @@ static void run_scalar(Ctx &c) {
     { out = poisoned(); be::residual(y, A, x, out); for (long i = 0; i < n; ++i) if (!eq(out[i], y[i] - Ax(i))) { c.fail("residual", "formula", fmt("row %ld", i)); break; } }
     { S a = (S)c.p.get("alpha"); out = poisoned(); be::axpby(a, y, S(0), out); for (long i = 0; i < n; ++i) if (!eq(out[i], a * y[i])) { c.fail("axpby", "b-zero-ignores-output", fmt("element %ld", i)); break; } }
     { S a = (S)c.p.get("alpha"), b = (S)c.p.get("beta"); out = z; be::axpby(a, y, b, out); for (long i = 0; i < n; ++i) if (!eq(out[i], a * y[i] + b * z[i])) { c.fail("axpby", "formula", fmt("element %ld", i)); break; } }
+    {   // a subnormal output coefficient is not zero: the old output still enters (the zero test must be exact, not "tiny")
+        S b = std::numeric_limits<S>::denorm_min() * S(1 + (c.p.get("alpha") + 3) % 5);
+        out = z; be::axpby(S(0), y, b, out); for (long i = 0; i < n; ++i) if (!eq(out[i], S(0) * y[i] + b * z[i])) { c.fail("axpby", "subnormal-coefficient-is-not-zero", fmt("element %ld", i)); break; }
+        out = y; be::spmv(S(0), A, x, b, out); for (long i = 0; i < n; ++i) if (!eq(out[i], S(0) * Ax(i) + b * y[i])) { c.fail("spmv", "subnormal-coefficient-is-not-zero", fmt("row %ld", i)); break; }
+        out = w; be::vmul(S(0), y, z, b, out); for (long i = 0; i < n; ++i) if (!eq(out[i], S(0) * y[i] * z[i] + b * w[i])) { c.fail("vmul", "subnormal-coefficient-is-not-zero", fmt("element %ld", i)); break; }
+        c.res.counts["subnormal_coefficient_clauses"] += 3;
+    }
     { S a = (S)c.p.get("alpha"), b = (S)c.p.get("beta"); out = poisoned(); be::axpbypcz(a, y, b, z, S(0), out); for (long i = 0; i < n; ++i) if (!eq(out[i], a * y[i] + b * z[i])) { c.fail("axpbypcz", "c-zero-ignores-output", fmt("element %ld", i)); break; } }
     { S a = (S)c.p.get("alpha"), b = (S)c.p.get("beta"); out = w; be::axpbypcz(a, y, b, z, S(2), out); for (long i = 0; i < n; ++i) if (!eq(out[i], a * y[i] + b * z[i] + S(2) * w[i])) { c.fail("axpbypcz", "formula", fmt("element %ld", i)); break; } }
     { S a = (S)c.p.get("alpha"); out = poisoned(); be::vmul(a, y, z, S(0), out); for (long i = 0; i < n; ++i) if (!eq(out[i], a * y[i] * z[i])) { c.fail("vmul", "b-zero-ignores-output", fmt("element %ld", i)); break; } }
